@@ -375,7 +375,7 @@ def _plan(prop, T):
                 miri("seg-domains", 1, 8, T, grid_len=24, grid_lo=2, parts="g"),
                 miri("seg-domains", 1, 8, T, parts="x", edge_step=8),
             ],
-            rule="evaluation = one domain (construction must succeed iff it has > 16 points) or one coordinate whose stored place (hook) must be 31 + ((x-lo) >> s), s least with 32*2^s >= len, with the number of place lists == 32 + bucket(hi), cross-checked by point queries; distinct non-trivial = distinct (coordinate type, lo, len)",
+            rule="evaluation = one domain (construction must succeed iff it has > 16 points) or one coordinate whose stored place (hook) must be 31 + ((x-lo) >> s), s least with 32*2^s >= len, with at least 32 + bucket(hi) place lists (every usable place backed by storage), cross-checked by point queries; distinct non-trivial = distinct (coordinate type, lo, len)",
             require={"domains_built": 5000, "domains_refused_as_required": 1000, "coordinates_checked": 200000, "point_queries_checked": 50000,
                      "domains_with_more_points_than_i64_max": 40},
             exhaustive_claim=True,
